@@ -496,8 +496,6 @@ theorem dot_wf (a b r : A) (ha : a.WF) (hb : b.WF) (h : dot a b = some (.ok r)) 
 
 theorem outer_wf (a b r : A) (h : outer a b = .ok r) : r.WF := reshape_wf h
 
-theorem vdot_wf' (a b r : A) (h : vdot a b = .ok r) : r.WF := vdot_wf h
-
 /-! ### non-vacuity: concrete instances (also the suite's own rows) -/
 example : matmul ⟨[1, 2, 3, 4, 5, 6], [2, 3]⟩ ⟨[1, 2, 3, 4, 5, 6], [3, 2]⟩ = .ok ⟨[22, 28, 49, 64], [2, 2]⟩ := by decide
 example : matmul ⟨[1, 2, 3, 4, 5, 6, 7, 8, 9], [3, 3]⟩ ⟨[1, 2, 3, 4, 5, 6], [3, 2]⟩
